@@ -243,6 +243,12 @@ def run_job(cfile, job, workdir):
     if not r.obligations:
         r.reason = "zero obligations generated"
         return r
+    unw = [o for o in r.failed if ".unwind." in o["name"] or o["description"].startswith("unwinding assertion")]
+    if unw and job.kind != "cover":
+        # an insufficient unwinding bound is a machinery problem (undecided), never a property violation
+        r.reason = "unwinding assertion failed (%s): the bound of this bounded job is too small for the current code" % unw[0]["name"]
+        r.failed = []
+        return r
     if other and not r.failed:
         r.reason = "%d obligation(s) with status other than SUCCESS/FAILURE (cbmc exit %d: out of memory or internal error)" % (other, rc)
         return r
